@@ -10,9 +10,9 @@ package processor
 //verif:entry VerifC06Tail conf=6
 //verif:entry VerifC06Dedup conf=6
 //verif:stub (*github.com/siglens/siglens/pkg/segment/utils.CValueEnclosure).Hash verifC06Hash
-//verif:bound total input T = 0..4 rows (head/tail) or 1..3 (quick) / 1..4 (thorough) rows (dedup; values in {0..3}) with free int64 values (head/tail) in one or two columns; the partition of the rows into up to three batches is free; head limit 0..T+1, tail rows 0..T+1, dedup limit 1..2, consecutive on/off
+//verif:bound total input T = 0..4 rows (head/tail) or 1..3 (quick) / 1..4 (thorough) rows (dedup; values in {0,1,2}) with free int64 values (head/tail) in one or two columns; the partition of the rows into up to three batches is free; head limit 0..T+1, tail rows 0..T+1, dedup limit 1..2, consecutive on/off
 //verif:outside where/eval/rex/regex/fillnull/rename/bin/streamstats/stats/top/rare/makemv (expression evaluation and regexes), DataProcessor.Fetch wiring, two-pass commands, parallel chain merge
-//verif:assume dedup values are drawn from {0,1,2,3}; CValueEnclosure.Hash is the real function evaluated on each concrete candidate value (real xxhash), so no hash value is chosen by the solver
+//verif:assume dedup values are drawn from {0,1,2}; CValueEnclosure.Hash is the real function evaluated on each concrete candidate value (real xxhash), so no hash value is chosen by the solver
 
 import (
 	"io"
@@ -209,10 +209,7 @@ func VerifC06Dedup() {
 	}
 }
 
-// value domain of the dedup harness: {0,1,2} in the quick tier, {0,1,2,3} in the thorough tier
+// value domain of the dedup harness: {0,1,2} (the thorough tier adds a 4th row)
 func verifC06Dom() int {
-	if zz.Tier() > 0 {
-		return 3
-	}
 	return 2
 }
